@@ -22,6 +22,12 @@ def gen(rng, tier, kinds=None, ints=True, outcomes=('optimal',)):
         cones = ['LQ', 'Q', 'LQX', 'X'][int(rng.integers(4))]
         spec = D.gen(rng, tier, cones=cones, ints=ints and rng.random() < 0.2)
         spec['outcome'] = 'optimal'
+    elif kind == 'msplit':
+        # market-split type MILP: small but needs thousands of branch-and-bound nodes
+        n = int(rng.integers(14, 18))
+        A = rng.integers(0, 100, (2, n))
+        spec = {'n': n, 'A': A.tolist(), 'd': (A.sum(axis=1) // 2).tolist(), 'outcome': 'optimal',
+                'spell': int(rng.integers(1 << 30))}
     elif kind == 'dro':
         spec = DR.gen(rng, tier)
         spec['outcome'] = 'optimal'
@@ -31,7 +37,31 @@ def gen(rng, tier, kinds=None, ints=True, outcomes=('optimal',)):
     return {'kind': kind, 'spec': spec}
 
 
+class _B:
+    pass
+
+
+def build_msplit(spec):
+    from rsome import ro
+    m = ro.Model()
+    x = m.dvar(spec['n'], 'B')
+    sp = m.dvar(2)
+    sn = m.dvar(2)
+    A = np.array(spec['A'], float)
+    m.min(sp.sum() + sn.sum())
+    m.st(A @ x + sp - sn == np.array(spec['d'], float))
+    m.st(sp >= 0, sn >= 0)
+    B = _B()
+    B.model = m
+    B.xs = [x, sp, sn]
+    B.arrays = []
+    B.digests = []
+    return B
+
+
 def build(src, variant=None):
+    if src['kind'] == 'msplit':
+        return build_msplit(src['spec'])
     if src['kind'] in ('lp', 'milp', 'conic'):
         return D.build(src['spec'], variant)
     if src['kind'] == 'dro':
